@@ -68,7 +68,8 @@ Definition obs_ok (H : histories) (o : read_obs) : bool :=
 Definition si_ok (H : histories) (obs : list read_obs) : bool := forallb (obs_ok H) obs.
 
 (* ------------------------------------------------------------------ read stability *)
-Definition gc_ok (t : ts) (c : cmd) : bool := match c with GC _ _ sp => sp <=? t | _ => true end.
+(* no GC above the read ts and no DeleteRange (unsafe destroy range) *)
+Definition gc_ok (t : ts) (c : cmd) : bool := match c with GC _ _ sp => sp <=? t | DeleteRange _ _ => false | _ => true end.
 (* every pair of P naming transaction s commits above t *)
 Definition pairs_above (t s : ts) (P : list (ts * ts)) : bool :=
   forallb (fun p => negb (fst p =? s) || (t <? snd p)) P.
@@ -152,14 +153,15 @@ Definition ww_discipline (cmds : list cmd) : bool := forallb (pess_req_ok (flat_
 Definition no_pess (cmds : list cmd) : bool := forallb (fun c => match c with PessLock _ => false | _ => true end) cmds.
 
 (* discipline for the insert commit point of transaction s on key k: every prewrite of s that names k is an
-   optimistic (for-update ts 0) Insert of k - the client re-sends the same mutation - and s takes no pessimistic
-   lock on k *)
+   Insert of k (the client re-sends the same mutation), either optimistic (for-update ts 0: checked at the start ts)
+   or marked "pessimistic lock required"; every pessimistic lock request of s that names k carries the not-exist
+   assertion (checked at the for-update ts) *)
 Definition is_ins_op (o : mop) : bool := match o with MInsert => true | _ => false end.
 Definition ins_cmd_ok (k : key) (s : ts) (c : cmd) : bool :=
   match c with
   | Prewrite ms _ s' fu _ _ _ =>
-    negb (s' =? s) || ((fu =? 0) && forallb (fun m => negb (m_key m =? k) || is_ins_op (m_op m)) ms)
-  | PessLock r => negb (p_start r =? s) || negb (existsb (fun kb => fst kb =? k) (p_keys r))
+    negb (s' =? s) || forallb (fun m => negb (m_key m =? k) || (is_ins_op (m_op m) && ((fu =? 0) || m_pess_check m))) ms
+  | PessLock r => negb (p_start r =? s) || forallb (fun kb => negb (fst kb =? k) || snd kb) (p_keys r)
   | _ => true
   end.
 Definition ins_discipline (cmds : list cmd) (k : key) (s : ts) : bool := forallb (ins_cmd_ok k s) cmds.
